@@ -96,6 +96,7 @@ def manager_cases(draw, tier="quick", tasks=("detection", "tracking", "fp_valida
         crit = draw(range_cfg(n, narrow=True, allow_uuids=True, n_gt=len(sc["gt"])))
         if n > 1 and draw(st.integers(0, 2)) == 0:
             crit["perm"] = list(draw(st.permutations(list(range(n)))))
+        pf_conf = draw(GEN.per_label(n, st.sampled_from([0.0, 0.3, 0.6]))) if draw(st.integers(0, 3)) == 0 else None
         if crit["kind"] == "dist" and draw(st.integers(0, 1)) == 0:
             # an elevated / sunken annotation (with its estimates) 3 % inside or outside a distance bound in the ego's
             # ground plane: the PLANAR distance decides, the 3D range lies on the other side of the bound
@@ -125,7 +126,7 @@ def manager_cases(draw, tier="quick", tasks=("detection", "tracking", "fp_valida
         ego = draw(GEN.ego_poses())
         if crowded:
             ego = [draw(st.sampled_from([1, -1])) * draw(GEN.fl(5e4, 1e5)), draw(st.sampled_from([1, -1])) * draw(GEN.fl(5e4, 1e5)), ego[2]]
-        frames.append({"ego": ego, "gt": sc["gt"], "est": sc["est"], "crit": crit, "pf": pf})
+        frames.append({"ego": ego, "gt": sc["gt"], "est": sc["est"], "crit": crit, "pf": pf, "pf_conf": pf_conf})
     return {
         "task": task,
         "frame": frame,
@@ -250,10 +251,15 @@ def pf_config(mgr, d, f):
         # within that distance of an FP-labelled ground truth is an FP *with* ground truth, beyond it the GT is a TN
         labels.append("false_positive")
         thr.append(float(f["pf_fp"]))
+    conf = None
+    if f.get("pf_conf") is not None:
+        # the pass/fail configuration also accepts a per-label confidence list
+        conf = list(f["pf_conf"]) + ([0.0] if len(labels) > len(f["pf_conf"]) else [])
     return PerceptionPassFailConfig(
         evaluator_config=mgr.evaluator_config,
         target_labels=labels,
         matching_threshold_list=thr,
+        confidence_threshold_list=conf,
     )
 
 
